@@ -17,16 +17,27 @@ variable {P : PyChars}
 def TextOK (P : PyChars) (v : Str) : Prop :=
   IsBal (lexFrom P false v) ∧ Reparse.endBS false v = false
 
+/-- an entry field value: the enclosed text `{v}` lexes to a `Value` of the grammar (bare words, brace
+groups, quoted pieces - no top-level comma / equals sign, no block start), and `v` does not end in a
+backslash.  Weaker than `TextOK`: the content itself may be unbalanced (`A} # {B`). -/
+def ValueOK (P : PyChars) (v : Str) : Prop :=
+  IsValue (lexFrom P false ('{' :: (v ++ ['}']))) ∧ Reparse.endBS false v = false
+
+/-- an @string value: the enclosed text `{v}` lexes to brace-balanced tokens, `v` does not end in a
+backslash -/
+def StrValOK (P : PyChars) (v : Str) : Prop :=
+  IsBal (lexFrom P false ('{' :: (v ++ ['}']))) ∧ Reparse.endBS false v = false
+
 def SideOK (P : PyChars) : Block → Prop
   | .live (.entry e) =>
     (∀ c ∈ e.ty, P.isWord c = true) ∧ lower P e.ty = e.ty ∧
     startsWith "comment".toList e.ty = false ∧ startsWith "preamble".toList e.ty = false ∧
     startsWith "string".toList e.ty = false ∧ SimpleText e.key ∧
-    ∀ f ∈ e.fields, SimpleText f.key ∧ ∀ v, f.value = .str v → TextOK P v
-  | .live (.string k v _ _ _) => SimpleText k ∧ ∀ s, v = .str s → TextOK P s
+    ∀ f ∈ e.fields, SimpleText f.key ∧ ∀ v, f.value = .str v → ValueOK P v
+  | .live (.string k v _ _ _) => SimpleText k ∧ ∀ s, v = .str s → StrValOK P s
   | .live (.preamble v _ _ _) => TextOK P v
   | .live (.expl c _ _ _) => TextOK P c
-  | .live (.impl c _ _ _) => '@' ∉ c
+  | .live (.impl c _ _ _) => noStart P c = true
   | _ => False
 
 /-! ### `Library.add`: live keys are pairwise distinct, classes and positions are kept -/
@@ -329,10 +340,10 @@ theorem parsed_writable_lemma (hw : P.isWord '}' = false) (s : Str) (L : List Bl
     refine ⟨s1, s2, hB.1, s3, s4, s5, s6, hB.2.1, ?_, hB.2.2.2, hmd _ hbL⟩
     intro f hf
     obtain ⟨v, hv⟩ := hStr f hf
-    exact ⟨(s7 f hf).1, hB.2.2.1 f hf, v, hv, cleanVal_of_lex hw v ((s7 f hf).2 v hv).1 ((s7 f hf).2 v hv).2⟩
+    exact ⟨(s7 f hf).1, hB.2.2.1 f hf, v, hv, encVal_of_lex hw v ((s7 f hf).2 v hv).1 ((s7 f hf).2 v hv).2⟩
   | .live (.string k v l r m), hB, hS, hStr =>
     obtain ⟨sv, rfl⟩ := hStr
-    exact ⟨hS.1, hB, sv, rfl, cleanVal_of_lex hw sv (hS.2 sv rfl).1 (hS.2 sv rfl).2⟩
+    exact ⟨hS.1, hB, sv, rfl, encBal_of_lex hw sv (hS.2 sv rfl).1 (hS.2 sv rfl).2⟩
   | .live (.preamble v l r m), _, hS, _ => exact cleanVal_of_lex hw v hS.1 hS.2
   | .live (.expl c l r m), hB, hS, _ => exact ⟨cleanVal_of_lex hw c hS.1 hS.2, hB⟩
   | .live (.impl c l r m), hB, hS, _ => exact ⟨hB.1, hB.2, hS⟩
@@ -344,11 +355,11 @@ def SideOKC (P : PyChars) : Content → Prop
     (∀ c ∈ ty, P.isWord c = true) ∧ lower P ty = ty ∧
     startsWith "comment".toList ty = false ∧ startsWith "preamble".toList ty = false ∧
     startsWith "string".toList ty = false ∧ SimpleText k ∧
-    ∀ kv ∈ fs, SimpleText kv.1 ∧ ∀ v, kv.2 = .str v → TextOK P v
-  | .string k v => SimpleText k ∧ ∀ s, v = .str s → TextOK P s
+    ∀ kv ∈ fs, SimpleText kv.1 ∧ ∀ v, kv.2 = .str v → ValueOK P v
+  | .string k v => SimpleText k ∧ ∀ s, v = .str s → StrValOK P s
   | .preamble v => TextOK P v
   | .expl c => TextOK P c
-  | .impl c => '@' ∉ c
+  | .impl c => noStart P c = true
   | .failed _ => False
 
 theorem sideOK_iff (b : Block) : SideOK P b ↔ SideOKC P (contentOf b) := by
@@ -378,6 +389,19 @@ theorem sideOK_congr (L L' : List Block) (hc : L'.map contentOf = L.map contentO
   have hmem : contentOf x ∈ L.map contentOf := by rw [← hc]; exact List.mem_map_of_mem hx
   obtain ⟨b, hb, hbx⟩ := List.mem_map.mp hmem
   rw [sideOK_iff, ← hbx, ← sideOK_iff]; exact h b hb
+
+/-- a balanced value is in particular a good field value -/
+theorem valueOK_of_textOK (hw : P.isWord '}' = false) (v : Str) (h : TextOK P v) : ValueOK P v := by
+  refine ⟨?_, h.2⟩
+  rw [lex_delim P '{' .lbrace _ (by decide), Reparse.lexFrom_append_rbrace P hw [] false v h.2]
+  have := IsValue.braced ['{'] ['}'] (lexFrom P false v) [] h.1 IsValue.nil
+  simpa [lexFrom] using this
+
+theorem strValOK_of_textOK (hw : P.isWord '}' = false) (v : Str) (h : TextOK P v) : StrValOK P v := by
+  refine ⟨?_, h.2⟩
+  rw [lex_delim P '{' .lbrace _ (by decide), Reparse.lexFrom_append_rbrace P hw [] false v h.2]
+  have := IsBal.grp ['{'] ['}'] (lexFrom P false v) [] h.1 IsBal.nil
+  simpa [lexFrom] using this
 
 /-- the tokens of the nested-brace value `x{y{z}}` -/
 theorem lex_nested : lexFrom P false "x{y{z}}".toList =
@@ -409,5 +433,26 @@ theorem textOK_simple (v : Str) (hs : SimpleText v) : TextOK P v := by
     rw [List.getLast?_eq_some_getLast hne]
     have := (simpleChar_spec (hs _ (List.getLast_mem hne))).2.2
     simp [this]
+
+theorem valueOK_concat : ValueOK P "A} # {B".toList := by
+  refine ⟨?_, by decide⟩
+  have h := lex_concat (P := P) []
+  have hnil : lexFrom P false [] = [] := by simp [lexFrom]
+  rw [hnil, List.append_nil] at h
+  rw [h]; exact isValue_concatToks
+
+theorem valueOK_adj : ValueOK P "a}{b".toList := by
+  refine ⟨?_, by decide⟩
+  have h := lex_adj (P := P) []
+  have hnil : lexFrom P false [] = [] := by simp [lexFrom]
+  rw [hnil, List.append_nil] at h
+  rw [h]; exact isValue_adjToks
+
+theorem strValOK_adj : StrValOK P "a}{b".toList := by
+  refine ⟨?_, by decide⟩
+  have h := lex_adj (P := P) []
+  have hnil : lexFrom P false [] = [] := by simp [lexFrom]
+  rw [hnil, List.append_nil] at h
+  rw [h]; exact isBal_adjToks
 
 end Bib.PrintParse
